@@ -59,6 +59,193 @@ def _param_defaults(fn):
     return [(n, "<required>" if d is None else d) for n, d in zip(names, defaults)]
 
 
+# ------------------------------------------------------------------------------------------------- statement skeleton
+def _noinfo_test(test, infovar):
+    """`not torch.any(info)` / `not info.any()`"""
+    if isinstance(test, ast.UnaryOp) and isinstance(test.op, ast.Not) and isinstance(test.operand, ast.Call):
+        c = test.operand
+        f = ast.unparse(c.func)
+        if f == "torch.any" and len(c.args) == 1 and not c.keywords and ast.unparse(c.args[0]) == infovar:
+            return True
+        if f == f"{infovar}.any" and not c.args and not c.keywords:
+            return True
+    return False
+
+
+def _exit_test(test, infovar):
+    if _noinfo_test(test, infovar):
+        return "noinfo"
+    if isinstance(test, ast.BoolOp) and isinstance(test.op, ast.Or) and len(test.values) == 2:
+        a, b = test.values
+        if ast.unparse(a) == "settings.trace_mode.on()" and _noinfo_test(b, infovar):
+            return "trace|noinfo"
+    return None
+
+
+def _effect_free(st):
+    """docstring / pass / the verbose_linalg logging block: not modelled, cannot change the observables"""
+    if isinstance(st, ast.Pass):
+        return True
+    if isinstance(st, ast.Expr) and isinstance(st.value, ast.Constant) and isinstance(st.value.value, str):
+        return True
+    if isinstance(st, ast.If) and ast.unparse(st.test) == "settings.verbose_linalg.on()" and not st.orelse:
+        return all(isinstance(b, ast.Expr) and isinstance(b.value, ast.Call)
+                   and ast.unparse(b.value.func).startswith("settings.verbose_linalg.logger.") for b in st.body)
+    return False
+
+
+def _unknown(st):
+    return "?" + type(st).__name__ + ":" + ast.unparse(st).replace("\n", " ")[:60]
+
+
+def skeleton_core(core):
+    """[(lineno, depth, role)] of `_psd_safe_cholesky` (see lean/LinOp/C16/Skeleton.lean for the roles)."""
+    params = [a.arg for a in core.args.args]
+    A = params[0] if params else "?"
+    env = {"L": None, "info": None, "clone": None, "nan": None}
+    out = []
+
+    def chol_role(st):
+        call = st.value
+        tg = [ast.unparse(e) for e in st.targets[0].elts]
+        arg = ast.unparse(call.args[0]) if len(call.args) == 1 else "?"
+        kws = sorted(k.arg or "**" for k in call.keywords)
+        if env["L"] is None and len(tg) == 2:
+            env["L"], env["info"] = tg
+        who = "input" if arg == A else ("clone" if arg == env["clone"] and arg is not None else "?" + arg)
+        extra = [k for k in kws if k != "out"]
+        bad_out = any(k.arg == "out" and ast.unparse(k.value) != "out" for k in call.keywords)
+        role = f"chol({who})"
+        if extra or bad_out:
+            role += ";kw=" + ",".join(extra + (["out!"] if bad_out else []))
+        if tg != [env["L"], env["info"]]:
+            role += "->" + ",".join(tg)
+        return role
+
+    def classify(st, depth, loopvar):
+        if isinstance(st, ast.Assign) and len(st.targets) == 1 and isinstance(st.targets[0], ast.Tuple) \
+                and isinstance(st.value, ast.Call) and ast.unparse(st.value.func).endswith("cholesky_ex"):
+            return chol_role(st)
+        if isinstance(st, ast.If) and not st.orelse:
+            test = ast.unparse(st.test)
+            if env["info"] is not None:
+                t = _exit_test(st.test, env["info"])
+                if t is not None and len(st.body) == 1 and isinstance(st.body[0], ast.Return) \
+                        and st.body[0].value is not None and ast.unparse(st.body[0].value) == env["L"]:
+                    return f"return-if({t})"
+            if depth == 0 and test == "out is not None" and len(st.body) == 1 and isinstance(st.body[0], ast.Assign) \
+                    and ast.unparse(st.body[0].targets[0]) == "out" and isinstance(st.body[0].value, ast.Tuple) \
+                    and len(st.body[0].value.elts) == 2 and ast.unparse(st.body[0].value.elts[0]) == "out" \
+                    and ast.unparse(st.body[0].value.elts[1]).startswith("torch.empty("):
+                return "outpack"
+            if depth == 0 and env["nan"] is not None and test == f"{env['nan']}.any()" and len(st.body) == 1 \
+                    and isinstance(st.body[0], ast.Raise) and isinstance(st.body[0].exc, ast.Call):
+                return "raise-if(nan):" + ast.unparse(st.body[0].exc.func)
+            for pname in ("jitter", "max_tries"):
+                if depth == 0 and test == f"{pname} is None" and len(st.body) == 1 and isinstance(st.body[0], ast.Assign) \
+                        and [ast.unparse(t) for t in st.body[0].targets] == [pname]:
+                    return f"default({pname})"
+        if isinstance(st, ast.Assign) and all(isinstance(t, ast.Name) for t in st.targets):
+            names = sorted(t.id for t in st.targets)
+            v = st.value
+            if depth == 0 and len(names) == 1 and isinstance(v, ast.Call) and ast.unparse(v.func) == "torch.isnan" \
+                    and [ast.unparse(a) for a in v.args] == [A] and not v.keywords:
+                env["nan"] = names[0]
+                return "nanscan(input)"
+            if depth == 0 and len(names) == 1 and isinstance(v, ast.Call) and ast.unparse(v.func) == f"{A}.clone" \
+                    and not v.args and not v.keywords:
+                env["clone"] = names[0]
+                return "clone"
+            if depth == 0 and set(names) <= {"jitter_new", "jitter_prev"} and isinstance(v, ast.Constant) and v.value == 0 \
+                    and not isinstance(v.value, bool):
+                return "init(" + ",".join(names) + "=0)"
+            if depth == 1 and names == ["jitter_new"] and isinstance(v, ast.BinOp) and isinstance(v.op, ast.Mult) \
+                    and ast.unparse(v.left) == "jitter" and isinstance(v.right, ast.BinOp) and isinstance(v.right.op, ast.Pow):
+                return "sched"
+            if depth == 1 and names == ["diag_add"]:
+                masked = any(isinstance(x, ast.BinOp) and isinstance(x.op, ast.Mult) and isinstance(x.left, ast.Compare)
+                             and ast.unparse(x.left.left) == env["info"]
+                             and ast.unparse(x.right) in ("jitter_new - jitter_prev", "(jitter_new - jitter_prev)")
+                             for x in ast.walk(v))
+                return "incr(masked)" if masked else "incr(?)"
+            if depth == 1 and names == ["jitter_prev"] and ast.unparse(v) == "jitter_new":
+                return "prev"
+        if isinstance(st, ast.Expr) and isinstance(st.value, ast.Call):
+            c = st.value
+            f = ast.unparse(c.func)
+            if depth == 1 and f == "warnings.warn":
+                cat = ast.unparse(c.args[1]) if len(c.args) >= 2 else next((ast.unparse(k.value) for k in c.keywords if k.arg == "category"), "?")
+                return "warn:" + cat
+            if depth == 1 and isinstance(c.func, ast.Attribute) and c.func.attr == "add_" and env["clone"] is not None \
+                    and f.startswith(env["clone"] + ".diagonal(") and [ast.unparse(a) for a in c.args] == ["diag_add"]:
+                return "write(clone.diagonal)"
+        if isinstance(st, ast.Raise) and depth == 0 and isinstance(st.exc, ast.Call):
+            return "raise:" + ast.unparse(st.exc.func)
+        return None
+
+    for st in core.body:
+        if _effect_free(st):
+            continue
+        if isinstance(st, ast.For) and not st.orelse and isinstance(st.target, ast.Name) and isinstance(st.iter, ast.Call) \
+                and ast.unparse(st.iter.func) == "range":
+            out.append((st.lineno, 0, "for(" + ast.unparse(st.iter) + ")"))
+            for b in st.body:
+                if _effect_free(b):
+                    continue
+                out.append((b.lineno, 1, classify(b, 1, st.target.id) or _unknown(b)))
+            continue
+        out.append((st.lineno, 0, classify(st, 0, None) or _unknown(st)))
+    return out
+
+
+def skeleton_wrapper(wrap, core_name="_psd_safe_cholesky"):
+    params = [a.arg for a in wrap.args.args]
+    A = params[0] if params else "?"
+    out = []
+    res = {"L": None}
+    for st in wrap.body:
+        if _effect_free(st):
+            continue
+        role = None
+        if isinstance(st, ast.Assign) and len(st.targets) == 1 and isinstance(st.targets[0], ast.Name) \
+                and isinstance(st.value, ast.Call) and ast.unparse(st.value.func) == core_name:
+            c = st.value
+            res["L"] = st.targets[0].id
+            fwd = [ast.unparse(a) for a in c.args] == [A] and \
+                sorted((k.arg, ast.unparse(k.value)) for k in c.keywords) == [("jitter", "jitter"), ("max_tries", "max_tries"), ("out", "out")]
+            role = "core-call(forward-all)" if fwd else "core-call(?" + ast.unparse(c)[:60] + ")"
+            out.append((st.lineno, 0, role))
+            continue
+        if isinstance(st, ast.If) and ast.unparse(st.test) == "upper" and not st.orelse:
+            out.append((st.lineno, 0, "if(upper)"))
+
+            def tr_role(b):
+                if isinstance(b, ast.Assign) and len(b.targets) == 1:
+                    t, v = ast.unparse(b.targets[0]), ast.unparse(b.value)
+                    if t == "out" and v in ("out.transpose_(-1, -2)", "out.transpose_(-2, -1)"):
+                        return "transpose-out-inplace"
+                    if t == res["L"] and v in (f"{t}.mT", f"{t}.transpose(-1, -2)", f"{t}.transpose(-2, -1)"):
+                        return "transpose-result"
+                return _unknown(b)
+            for b in st.body:
+                if isinstance(b, ast.If) and ast.unparse(b.test) == "out is not None":
+                    out.append((b.lineno, 1, "if(out)"))
+                    for x in b.body:
+                        out.append((x.lineno, 2, tr_role(x)))
+                    if b.orelse:
+                        out.append((b.orelse[0].lineno, 1, "else"))
+                        for x in b.orelse:
+                            out.append((x.lineno, 2, tr_role(x)))
+                else:
+                    out.append((b.lineno, 1, tr_role(b)))
+            continue
+        if isinstance(st, ast.Return) and st.value is not None and ast.unparse(st.value) == res["L"]:
+            out.append((st.lineno, 0, "return-result"))
+            continue
+        out.append((st.lineno, 0, _unknown(st)))
+    return out
+
+
 def extract_cholesky(src):
     facts = {
         "base": 0, "expOffset": -1, "loopVar": "?", "loopBound": "?", "jitterPrevInit": None, "cumulative": False,
@@ -67,6 +254,7 @@ def extract_cholesky(src):
         "jitterDefaultExpr": "?", "maxTriesDefaultExpr": "?", "firstCallArg": "?", "retryCallArg": "?",
         "exitTests": [], "coreParams": [], "wrapperParams": [], "wrapperUpperExpr": "?", "cholCalls": 0,
         "loopBodyKinds": [], "jitterNewBoundBeforeLoop": False, "finalRaiseUsesJitterNew": False,
+        "coreSkeleton": [(0, 0, "?missing")], "wrapperSkeleton": [(0, 0, "?missing")], "coreFirstLine": 0,
     }
     tree = ast.parse(src)
     core = _func(tree, "_psd_safe_cholesky")
@@ -74,6 +262,9 @@ def extract_cholesky(src):
     if core is None or wrap is None:
         return facts
     facts["coreParams"] = _param_defaults(core)
+    facts["coreSkeleton"] = skeleton_core(core)
+    facts["wrapperSkeleton"] = skeleton_wrapper(wrap)
+    facts["coreFirstLine"] = core.lineno
     facts["wrapperParams"] = _param_defaults(wrap)
     loop = next((n for n in core.body if isinstance(n, ast.For)), None)
     # exceptions raised, in source order
@@ -335,6 +526,10 @@ def render(ch, se):
         f"def opShortcutReturn : String := {lean_str(ch.get('opShortcutReturn', '?'))}",
         f"def opPscCall : String := {lean_str(ch.get('opPscCall', '?'))}",
         f"def opCholeskyCallsLower : Bool := {'true' if ch.get('opCholeskyCallsLower') else 'false'}",
+        "/-- statement skeleton (nesting depth, role) of `_psd_safe_cholesky` / `psd_safe_cholesky`, in source order; roles are",
+        "documented in LinOp/C16/Skeleton.lean; `?…` = statement not recognised -/",
+        "def coreSkeleton : List (Nat × String) := [" + ", ".join(f"({d}, {lean_str(r)})" for _, d, r in ch['coreSkeleton']) + "]",
+        "def wrapperSkeleton : List (Nat × String) := [" + ", ".join(f"({d}, {lean_str(r)})" for _, d, r in ch['wrapperSkeleton']) + "]",
         "",
         "/-- `settings.cholesky_jitter._global_float_value` / `_global_double_value` (sentinel -1 if absent) -/",
         f"def jitterFloat : Rat := {lean_rat(se['jitterFloat'])}",
